@@ -9,6 +9,7 @@ import (
 	"go/constant"
 	"go/token"
 	"go/types"
+	"regexp"
 	"strconv"
 	"strings"
 
@@ -49,6 +50,15 @@ func (env *Env) bindIfAbsent(name string, v Val, t types.Type) {
 	if _, ok := env.vars[name]; !ok {
 		env.bind(name, v, t)
 	}
+}
+
+func (env *Env) noSkolem() *Env {
+	if !env.skolem {
+		return env
+	}
+	n := *env
+	n.skolem = false
+	return &n
 }
 
 func (env *Env) with(st *State) *Env {
@@ -128,6 +138,8 @@ func (env *Env) defaultType(tv TV) TV {
 	}
 	return env.coerce(tv, types.Typ[types.Int])
 }
+
+var ifaceMethodRe = regexp.MustCompile(`^[A-Z][A-Za-z0-9]*\.[A-Z][A-Za-z0-9]*$`)
 
 var ghostIntType = types.NewNamed(types.NewTypeName(token.NoPos, nil, "mathint", nil), types.Typ[types.UnsafePointer], nil)
 var seqType = types.NewNamed(types.NewTypeName(token.NoPos, nil, "seq", nil), types.NewStruct(nil, nil), nil)
@@ -377,7 +389,7 @@ func (env *Env) eval(x ast.Expr) TV {
 		v := env.eval(n.X)
 		switch n.Op {
 		case token.NOT:
-			return TV{T: not(env.evalBool(n.X)), Ty: types.Typ[types.Bool]}
+			return TV{T: not(env.noSkolem().evalBool(n.X)), Ty: types.Typ[types.Bool]}
 		case token.SUB:
 			if v.Ty == nil && v.Const != nil {
 				return TV{Const: constant.UnaryOp(token.SUB, v.Const, 0)}
@@ -405,7 +417,11 @@ func (env *Env) binary(n *ast.BinaryExpr) TV {
 	case token.LAND:
 		return TV{T: and(env.evalBool(n.X), env.evalBool(n.Y)), Ty: boolT}
 	case token.LOR:
-		return TV{T: or(env.evalBool(n.X), env.evalBool(n.Y)), Ty: boolT}
+		ns := env.noSkolem()
+		return TV{T: or(ns.evalBool(n.X), ns.evalBool(n.Y)), Ty: boolT}
+	}
+	if env.skolem {
+		env = env.noSkolem()
 	}
 	a, b := env.eval(n.X), env.eval(n.Y)
 	// nil comparisons
@@ -628,6 +644,13 @@ func (env *Env) call(n *ast.CallExpr) TV {
 		return TV{T: env.e.convert(v.T, v.Ty, t), Ty: t}
 	}
 	switch fname {
+	case "implies", "forall", "old", "atloop":
+	default:
+		if _, isDef := env.e.p.cs.Defines[fname]; !isDef {
+			env = env.noSkolem()
+		}
+	}
+	switch fname {
 	case "old":
 		return env.with(env.old).eval(n.Args[0])
 	case "atloop": // value at loop entry (before the first iteration)
@@ -636,9 +659,10 @@ func (env *Env) call(n *ast.CallExpr) TV {
 		}
 		return env.with(env.loopPre).eval(n.Args[0])
 	case "implies":
-		return TV{T: implies(env.evalBool(n.Args[0]), env.evalBool(n.Args[1])), Ty: boolT}
+		return TV{T: implies(env.noSkolem().evalBool(n.Args[0]), env.evalBool(n.Args[1])), Ty: boolT}
 	case "iff":
-		return TV{T: eq(env.evalBool(n.Args[0]), env.evalBool(n.Args[1])), Ty: boolT}
+		ns := env.noSkolem()
+		return TV{T: eq(ns.evalBool(n.Args[0]), ns.evalBool(n.Args[1])), Ty: boolT}
 	case "ite":
 		cnd := env.evalBool(n.Args[0])
 		a, b := env.eval(n.Args[1]), env.eval(n.Args[2])
@@ -689,12 +713,6 @@ func (env *Env) call(n *ast.CallExpr) TV {
 					sub.vars[k] = v
 				}
 				sub.vars[id.Name] = TV{T: sk, Ty: t}
-				if inner, ok := n.Args[2].(*ast.CallExpr); ok {
-					if fid, ok := inner.Fun.(*ast.Ident); ok && fid.Name == "forall" {
-						return sub.eval(inner)
-					}
-				}
-				sub.skolem = false
 				return TV{T: sub.evalBool(n.Args[2]), Ty: boolT}
 			}
 			c.nfresh++
@@ -722,6 +740,13 @@ func (env *Env) call(n *ast.CallExpr) TV {
 			sub.vars[k] = v
 		}
 		sub.vars[id.Name] = TV{T: bv, Ty: intT}
+		if env.skolem && fname == "forall" {
+			sk := c.Fresh("sk."+id.Name, bvSort(64))
+			sub.vars[id.Name] = TV{T: sk, Ty: intT}
+			body := sub.evalBool(n.Args[3])
+			return TV{T: implies(and("(bvsle "+lo.T+" "+sk+")", "(bvslt "+sk+" "+hi.T+")"), body), Ty: boolT}
+		}
+		sub.skolem = false
 		body := sub.evalBool(n.Args[3])
 		rng := and("(bvsle "+lo.T+" "+bv+")", "(bvslt "+bv+" "+hi.T+")")
 		if fname == "forall" {
@@ -808,7 +833,14 @@ func (env *Env) call(n *ast.CallExpr) TV {
 		if len(n.Args) == 1 {
 			if bl, ok := n.Args[0].(*ast.BasicLit); ok {
 				s, _ := strconv.Unquote(bl.Value)
-				name = "$n." + s
+				// interface methods ("File.Mkdir") are part of the backend call log;
+				// calls of /repo functions and function parameters are counted per
+				// invocation of the function under verification ($c.)
+				if ifaceMethodRe.MatchString(s) {
+					name = "$n." + s
+				} else {
+					name = "$c." + s
+				}
 			}
 		}
 		c.DeclComp(name, "Int")
@@ -966,4 +998,13 @@ func (env *Env) resolveFunc(name string) *ssa.Function {
 		}
 	}
 	return nil
+}
+
+// evalGoal evaluates a clause in goal position: leading universal quantifiers
+// (through &&, the consequent of ==>, and spec definitions) become fresh
+// constants, which keeps the refutation query quantifier-free on the goal side.
+func (env *Env) evalGoal(x ast.Expr) string {
+	n := *env
+	n.skolem = true
+	return n.evalBool(x)
 }
